@@ -19,6 +19,7 @@ Theorem C05_valid_only_if : forall (env : renv) (d : rdoc),
             (iso_device_tbs (c_protected c) (e_de env) (e_erk env) (e_handover env) (rd_doc_type d) (rd_device_ns d))
             (c_sig c) = true.
 Proof. exact device_valid_only_if. Qed.
+Print Assumptions C05_valid_only_if.
 
 (* another session, another docType or other device namespaces give different signed bytes *)
 Theorem C05_dab_injective : forall de erk ho dt ns de' erk' ho' dt' ns',
@@ -27,12 +28,15 @@ Theorem C05_dab_injective : forall de erk ho dt ns de' erk' ho' dt' ns',
   encode (iso_device_authentication de erk ho dt ns) = encode (iso_device_authentication de' erk' ho' dt' ns') ->
   de = de' /\ erk = erk' /\ ho = ho' /\ dt = dt' /\ ns = ns'.
 Proof. exact dab_bytes_injective. Qed.
+Print Assumptions C05_dab_injective.
 
 (* the bytes the device hands to the holder's key are exactly that structure *)
 Theorem C05_device_payload : forall prot de erk ho dt ns,
   device_signature_payload prot de erk ho dt ns = POk (iso_device_tbs prot de erk ho dt ns).
 Proof. exact device_payload_is_iso. Qed.
+Print Assumptions C05_device_payload.
 
 (* whatever the MSO device key is, the reader reports; it never panics *)
 Theorem C05_no_panic : forall env d, device_authentication env d <> DaPanic.
 Proof. exact device_no_panic. Qed.
+Print Assumptions C05_no_panic.
